@@ -92,6 +92,8 @@ cdef class StratifiedSFCNNPS(NNPS):
 
     cdef void _fill_nbr_boxes(self)
 
+    cdef double _cell_hmax(self, int level, uint64_t key)
+
     cdef int _neighbor_boxes_func(self, int i, int j, int k, int H,
             int* current_key_to_idx_level, uint64_t max_key,
             double current_cell_size, double* current_hmax_level, 
